@@ -191,9 +191,15 @@ def morph(fm: FeatureModel, new_model: dict) -> FeatureModel:
     fm.ctcs = []
     for c in new_model.get("ctcs", []):
         keep = next((o for o in old_ctcs if o.name == c["name"] and node_to_expr(o.ast.root) == c["ast"]), None)
+        same_name = next((o for o in old_ctcs if o.name == c["name"]), None)
         if keep is not None:
             old_ctcs.remove(keep)
             fm.ctcs.append(keep)
+        elif same_name is not None:
+            # the formula of an existing constraint is replaced through its public `ast` property
+            old_ctcs.remove(same_name)
+            same_name.ast = AST(build_node(c["ast"]))
+            fm.ctcs.append(same_name)
         else:
             fm.ctcs.append(build_constraint(c))
     return fm
